@@ -547,6 +547,9 @@ def check_observer(res, prop, cm, roles, m, top):
             ok = r == ld0(THIS(roles.counter))
         else:
             ok = isinstance(r, tuple) and r[0] == 'q' and r[1] == 'size' and r[2] == L.index and (r[4] or 0) == 0
+    elif m.name == 'empty' and isinstance(r, tuple) and r[0] == 'bool' and top.cond('NONEMPTY') is not None:
+        want = 'counter == 0'
+        ok = r[1] == (not top.cond('NONEMPTY')) and len([c for c in top.conds if c[0] not in ('NONEMPTY',)]) == 0
     elif m.name == 'empty':
         want = 'counter == 0'
         cnt = ld0(THIS(roles.counter)) if roles.counter else None
